@@ -14,7 +14,16 @@ static const char *why;
 static int fail(const char *w) { why = w; return 0; }
 
 static int tokwf(const jsmntok_t *t, unsigned b) {
-  return t->start >= 0 && (unsigned)t->start <= b && (t->end == -1 || (t->start <= t->end && (unsigned)t->end <= b));
+  if (!(t->start >= 0 && (unsigned)t->start < b)) return 0;
+  if (t->end == -1) return t->type == JSMN_OBJECT || t->type == JSMN_ARRAY;
+  if (!(t->start <= t->end && (unsigned)t->end <= b)) return 0;
+  return t->type == JSMN_STRING ? (t->start >= 1 && (unsigned)t->end < b) : t->start < t->end;
+}
+static int tq(const jsmntok_t *t) { return t->type == JSMN_STRING ? 1 : 0; }
+static int laminar(const jsmntok_t *a, const jsmntok_t *b) {
+  if (a->end == -1) return a->start < b->start - tq(b);
+  if (a->end + tq(a) <= b->start - tq(b)) return 1;
+  return (a->type == JSMN_OBJECT || a->type == JSMN_ARRAY) && a->start < b->start - tq(b) && b->end != -1 && b->end + tq(b) < a->end;
 }
 
 /* returns 1 if all contracts held */
@@ -37,6 +46,7 @@ static int check(const char *bytes, size_t n, unsigned budget) {
     } else {
       if (!tokwf(&t[i], p.pos)) ok = fail("jsmn_parse token extent outside consumed input");
       if (!(t[i].size >= 0 && (unsigned)t[i].size <= p.pos)) ok = fail("jsmn_parse token size bound");
+      for (int j = i + 1; ok && j < p.toknext; j++) if (!laminar(&t[i], &t[j])) ok = fail("jsmn_parse tokens not ordered / extents not laminar");
       if (r == JSMN_SUCCESS && !(0 <= t[i].start && t[i].start <= t[i].end && (unsigned)t[i].end <= p.pos)) ok = fail("jsmn_parse success with open token");
     }
   }
